@@ -162,7 +162,7 @@ impl Stream for Generated
 	}
 	fn count(&self, tier: Tier) -> u64
 	{
-		tier.pick(40_000, 600_000)
+		tier.pick(200_000, 600_000)
 	}
 	fn choice_len(&self) -> usize
 	{
@@ -205,7 +205,7 @@ impl Stream for FromPrograms
 	}
 	fn count(&self, tier: Tier) -> u64
 	{
-		tier.pick(1500, 60_000)
+		tier.pick(10_000, 60_000)
 	}
 	fn choice_len(&self) -> usize
 	{
